@@ -180,7 +180,7 @@ def c06_edges(tier, seed):
             c = mk()
         has_cp = 'without' not in tag
         distinct += 1
-        for T in (900., 350.):
+        for T in (350., 900.):          # 900 K is the LAST temperature accepted before the range is narrowed
             probe(tag + ' [as constructed]', c, T, True, has_cp)
         c.set_range((298., 500.))
         for T, inside in ((900., False), (350., True), (900., False)):
@@ -709,11 +709,11 @@ def c08_matcher(tier, seed):
     from rdkit import Chem
     from pgradd.RINGParser.Reader import Read
     rnd = random.Random(seed)
-    smiles = ['C', 'CC', 'C=C', 'C#C', 'CO', 'C=O', 'CCO', 'CC=O', 'C1CC1', 'C1CO1', 'C1CC12CCC2', 'C1CCC2CCCC2C1',      # spiro / fused: atoms in rings of different sizes
+    smiles = ['C', 'CC', 'C=C', 'C#C', 'CO', 'C=O', 'CCO', 'CC=O', 'C1CC1', 'C1CO1', 'C1CC12CCC2', 'C1CCC2CCCC2C1', '[OH3+]', 'C[CH2+]', 'C[NH2+]C', 'CC[O-]', 'C[CH-]C',      # spiro / fused: atoms in rings of different sizes
               '[CH3]', '[CH2]C', '[CH]=C', 'C[O-]', 'C[NH3+]', 'CN', 'O=C=O',
               '[CH2][CH2]', 'C[C]C', 'C1=CC1', 'OO', 'N#N', '[OH]', 'C1CCC1', 'C12CC1C2', 'c1ccccc1', 'CC(C)=O']
     if tier == 'quick':
-        smiles = smiles[:20]
+        smiles = smiles[:25]
     makers = ['Chem.MolFromSmiles(%r)' % s for s in smiles]
     # molecules handed over with SOME hydrogens already explicit (isotope-labelled H, hydrogens added on selected atoms only, all explicit)
     makers += ["Chem.MolFromSmiles('[2H]CC')", "Chem.AddHs(Chem.MolFromSmiles('CCO'), onlyOnAtoms=[0])", "Chem.AddHs(Chem.MolFromSmiles('C=CO'), onlyOnAtoms=[2])",
@@ -725,7 +725,7 @@ def c08_matcher(tier, seed):
     ops = {'>': lambda a, b: a > b, '<': lambda a, b: a < b, '>=': lambda a, b: a >= b, '<=': lambda a, b: a <= b, '=': lambda a, b: a == b}
     symbols = ['C', 'O', 'N', 'H', '$', 'X', '&']
     prefixes = [None, 'ringatom', 'nonringatom', 'allylic', 'aromatic', 'nonaromatic']
-    suffixes = [None, '.', ':', '+', '-', '?', '+.']
+    suffixes = [None, '.', ':', '+', '-', '?', '+.', '*']       # '*': one more bond than the default valence and charge +1 (oxonium, ammonium)
     bondkinds = ['single', 'double', 'triple', 'any', 'ring', 'nonring', 'strong', 'aromatic']
     molprefixes = [None, 'positive', 'negative', 'neutral', 'cyclic', 'linear', 'olefinic', 'paraffinic', 'neutral cyclic']
 
@@ -750,6 +750,8 @@ def c08_matcher(tier, seed):
         rad, chg = a.GetNumRadicalElectrons(), a.GetFormalCharge()
         if suf is None:
             return rad == 0 and chg == 0
+        if suf == '*':
+            return chg == 1 and a.GetTotalValence() == Chem.GetPeriodicTable().GetDefaultValence(a.GetAtomicNum()) + 1
         return {'.': rad == 1, ':': rad == 2, '+': chg == 1, '-': chg == -1, '?': True, '+.': rad == 1 and chg == 1}[suf]
 
     def bond_ok(kind, b):
@@ -824,7 +826,15 @@ def c08_matcher(tier, seed):
     for sym in symbols:
         for pre in prefixes:
             for suf in suffixes:
+                if suf == '*' and sym in ('$', 'X', '&'):
+                    continue          # the valence of 'any atom' is not defined
                 frags.append(((pre, sym, suf), None, None, None, None))
+    # the same element twice in one fragment with different charge / radical suffixes, in both orders, bonded and as a neighbour constraint
+    for s1, s2 in ((None, '+'), ('+', None), (None, '-'), ('-', None), (None, '.'), ('.', None), (None, '?'), ('?', None), ('+', '-')):
+        for sym in ('C', 'O', 'N'):
+            frags.append(((None, sym, s1), None, (None, sym, s2), 'any', None))
+            frags.append(((None, sym, s1), ('conn', True, '>=', 1, (None, sym, s2), 'any'), None, None, None))
+            frags.append(((None, sym, s1), ('conn', False, '>=', 1, (None, sym, s2), 'any'), None, None, None))
     for c in cons:
         for sym in ('C', 'O', '$'):
             frags.append(((None, sym, None if sym != '$' else '?'), c, None, None, None))
@@ -841,7 +851,7 @@ def c08_matcher(tier, seed):
     with real.quiet():
         for (t1, c1, t2, bk, mp) in frags:
             lab1, lab2 = rnd.choice([('c1', 'c2'), ('x', 'y_1'), ('AtomLabel', 'b')])
-            sp = rnd.choice([' ', '\n  ', '\t'])
+            sp = rnd.choice([' ', '\n  ', '\t', '\r\n', ' \r\n\t'])        # incl. Windows line endings
             text = '%sfragment f{%s%s labeled %s %s' % ((mp + ' ') if mp else '', sp, text_type(t1), lab1, text_cons(c1))
             if t2 is not None:
                 text += '%s%s labeled %s %s bond to %s' % (sp, text_type(t2), lab2, bk, lab1)
@@ -877,6 +887,24 @@ def c08_matcher(tier, seed):
                                      'script': "from rdkit import Chem\nfrom pgradd.RINGParser.Reader import Read\nprint(Read(%r).GetQueryMatches(%s))  # expected %r\n" % (text, smi, sorted(want))})
             if len(samples) < 4 and (c1 or t2):
                 samples.append(text)
+    # layout INSIDE multi-word keywords (known finding K7): the same fragment with two blanks / a tab / a line break inside a keyword
+    base_texts = ['fragment f{ C labeled c1 {connected to >1 H} }', 'fragment f{ C labeled c1 O labeled o1 single bond to c1 }', 'fragment f{ any atom labeled x {in ring of size 3} }']
+    with real.quiet():
+        for bt in base_texts:
+            q0 = Read(bt)
+            for kw in ('connected to', 'bond to', 'any atom', 'in ring of size'):
+                if kw not in bt:
+                    continue
+                for gap in ('  ', '\t', '\n', ' \n '):
+                    t2 = bt.replace(kw, kw.replace(' ', gap, 1), 1)
+                    n += 1
+                    try:
+                        same = all(sorted(map(tuple, Read(t2).GetQueryMatches(eval(mk, {'Chem': Chem})))) == sorted(map(tuple, q0.GetQueryMatches(eval(mk, {'Chem': Chem})))) for mk, _ in mols[:8])
+                        got = 'same matches' if same else 'different matches'
+                    except Exception as e:    # noqa
+                        got = 'Read raised %s' % type(e).__name__
+                    if got != 'same matches':
+                        viol.append({'id': 'keyword-layout-%d' % n, 'cls': 'K7:whitespace-inside-keyword', 'input': t2, 'observed': got, 'expected': 'the matches of %r' % bt})
     return {'name': 'brute-force-matcher', 'evaluations': n, 'distinct_nontrivial': distinct, 'violations': viol, 'samples': samples,
             'bound': '%d fragments (<= 2 atoms, <= 1 constraint, all symbol classes/prefixes/suffixes/bond kinds/operators/negation/molecule prefixes; random layout and labels) x %d molecules of <= 7 heavy atoms' % (len(frags), len(mols)),
             'rule': 'a case is (fragment, molecule); fragments distinct by construction'}
